@@ -2,7 +2,8 @@
 // not thread-safe, buffers, and detects concurrent entry into any of its operations.
 //   mt turn <o|e> <sevA> <sevB> <w|s> <rep> <build>
 //        turnstile: writer A (severity sevA) is parked inside the stream buffer - in its write
-//        (w) or in the flush that follows (s) - writer B (severity sevB) must block before entering
+//        (w) or in the flush that follows (s) - writer B (severity sevB) must block before entering;
+//        <rep> records are logged beforehand (the lock has a history)
 //   mt stress <o|e> <threads> <records> <sevmode> <seed> <build>
 //        sevmode 0..5: every record at that severity; 6: (5t+k) mod 6; 7: thread 0 fatal, others k mod 5;
 //        8: info, and every second record is logged by a callable operand of the following statement
@@ -342,6 +343,12 @@ static std::string handle(const std::vector<std::string>& f)
     if (f.at(0) == "turn")
     {
         int sevA = std::stoi(f.at(2)), sevB = std::stoi(f.at(3));
+        // <rep> records go through the sink first (from this thread); the turnstile comes after them
+        long before = std::stol(f.at(5));
+        for (long i = 0; i < before; i++)
+            log(2, std::string("r"));
+        buf.entries = 0;
+        buf.max_inside = 0;
         buf.park_mode = f.at(4) == "s" ? 2 : 1;
         std::thread a([&] { log(sevA, record_text(0, 0, sevA)); });
         // wait until A is parked inside the stream buffer
